@@ -233,6 +233,20 @@ class Gen:
                                  "sync": [{"op": "spawn", "into": op["label"], "actor": late}]}]
             op["children"].append(child)
         op["body"] = self.body(depth)
+        if subject and op["until"]["k"] == "flag" and rng.random() < 0.3 \
+                and not self.resources[op["until"]["n"]].get("init"):
+            # the notification is fired from inside the block: by its own body (which is cut off
+            # at that very statement) or by one of its children - nobody outside sets the flag
+            name = op["until"]["n"]
+            self.setters = [spec for spec in self.setters if spec["name"] != "set" + name]
+            fire = [{"op": "sleep", "d": rng.choice(self.delays)},
+                    {"op": "flag_set", "on": name, "to": True},
+                    {"op": "now", "tag": "after-own-trigger"}]
+            if rng.random() < 0.5:
+                op["body"] = op["body"] + fire + [{"op": "sleep", "d": 1}]
+            else:
+                op["children"].append({"name": self.fresh("c"), "ops": fire})
+                op["body"].append({"op": "sleep", "d": rng.choice([4, 8])})
         if subject and rng.random() < 0.15:
             op["body"].append({"op": "eternity"})
         if subject and rng.random() < 0.1:
